@@ -30,6 +30,8 @@ var vhC17Ops = []string{
 	"inbound-read", "inbound-write", "inbound-subscribe", "inbound-bind", "inbound-discovery-read", "inbound-notify",
 	"inbound-entity-removed", "local-set-data", "local-update-data", "use-case-change", "add-entity", "remove-entity",
 	"request-remote-data", "approval-verdict", "remove-connection", "event-subscribe-unsubscribe", "subscribe-to-remote",
+	"get-or-add-feature", "add-function-type", "use-case-change-other-entity", "inbound-reply", "bind-to-remote",
+	"read-local-and-remote-data", "inbound-subscription-list-read", "client-side-bookkeeping-queries",
 }
 
 // C17 (the half a scheduler can decide): every pair of operations of the public API / the receive
@@ -147,6 +149,42 @@ func vhC17(race bool) {
 		case "subscribe-to-remote":
 			rf := w.rA.FeatureByAddress(vhAddr("A", []uint{1}, 2))
 			return func() { _, _ = w.F3.SubscribeToRemote(rf.Address()) }
+		case "get-or-add-feature":
+			return func() { w.E1.GetOrAddFeature(model.FeatureTypeTypeSetpoint, model.RoleTypeServer) }
+		case "add-function-type":
+			return func() { w.F2.AddFunctionType(model.FunctionTypeMeasurementDescriptionListData, true, false) }
+		case "use-case-change-other-entity":
+			return func() {
+				w.E2.AddUseCaseSupport(model.UseCaseActorTypeCEM, model.UseCaseNameTypeLimitationOfPowerProduction, model.SpecificationVersionType("1.0.0"), "", true, []model.UseCaseScenarioSupportType{1})
+				w.E2.RemoveUseCaseSupport(model.UseCaseActorTypeCEM, model.UseCaseNameTypeLimitationOfPowerProduction)
+			}
+		case "inbound-reply":
+			h := w.hdr(vhAddr("A", []uint{1}, 2), w.F3.Address(), model.CmdClassifierTypeReply, false)
+			h.MsgCounterReference = util.Ptr(model.MsgCounterType(77))
+			d := model.DatagramType{Header: h, Payload: model.PayloadType{Cmd: []model.CmdType{{LoadControlLimitListData: vhLimitList(4, slot == 0)}}}}
+			return func() { vhDeliver(r, d) }
+		case "bind-to-remote":
+			rf := w.rA.FeatureByAddress(vhAddr("A", []uint{1}, 2))
+			return func() { _, _ = w.F3.BindToRemote(rf.Address()) }
+		case "read-local-and-remote-data":
+			rf := w.rA.FeatureByAddress(vhAddr("A", []uint{1}, 2))
+			return func() {
+				_ = w.F1.DataCopy(fn)
+				_ = rf.DataCopy(fn)
+				_ = w.F1.Operations()
+				_ = w.L.Information()
+			}
+		case "inbound-subscription-list-read":
+			d := model.DatagramType{Header: w.hdr(nm, nmL, model.CmdClassifierTypeRead, false), Payload: model.PayloadType{Cmd: []model.CmdType{{NodeManagementSubscriptionData: &model.NodeManagementSubscriptionDataType{}}}}}
+			return func() { vhDeliver(r, d) }
+		case "client-side-bookkeeping-queries":
+			rf := w.rA.FeatureByAddress(vhAddr("A", []uint{1}, 2))
+			return func() {
+				_ = w.F3.HasSubscriptionToRemote(rf.Address())
+				_ = w.F3.HasBindingToRemote(rf.Address())
+				_ = w.L.RemoteDevices()
+				_ = w.L.Entities()
+			}
 		}
 		panic(fmt.Sprintf("operation %d", op))
 	}
